@@ -172,6 +172,14 @@ impl fmt::Display for CompoundVariable {
                 _ => format!("{{{}}}", i),
             })
             .collect::<Vec<String>>();
+        //without a base name an identifier index would be read back as the base
+        //(`_{i}_j` written as `_i_j` is the name `_i` indexed by `j`)
+        let mut indexes = indexes;
+        if self.name.is_empty()
+            && let Some(PreExp::Variable(_)) = self.indexes.first()
+        {
+            indexes[0] = format!("{{{}}}", indexes[0]);
+        }
         write!(f, "{}_{}", self.name, indexes.join("_"))
     }
 }
